@@ -69,7 +69,7 @@ Definition ex_tiny : prog :=
  (BDo (EExt LPrintf1 [(EStr "%d
 "%string); (EVar "y"%string)])
  (BDo (ECall "hello"%string 0 true [])
- (BLet "r"%string (ERecord "Rec"%string ["X"%string; "Name"%string] [(EInt (1)%Z); (EStr "abc"%string)])
+ (BLet "r"%string (ERecord "Rec"%string ["X"%string; "Name"%string] ["X"%string; "Name"%string] [(EInt (1)%Z); (EStr "abc"%string)])
  (BDo (EExt LPrintln [(EField (EVar "r"%string) "Name"%string)])
  (BLet "t"%string (ETuple [(EInt (1)%Z); (EStr "two"%string)])
  (BDestr ["a"%string; "b"%string] (EVar "t"%string)
